@@ -200,12 +200,13 @@ func runEtcd(env *locklog.Etcd, key string, p plan) (res result) {
 }
 
 // runEtcdRetry repeats a stalled (or infrastructure-failed) run on a fresh key,
-// at most three attempts; the last attempt is emitted whatever happened.
+// at most four attempts; a run that is still stalled after the last attempt is
+// dropped by the caller (counted in the evidence), never emitted.
 func runEtcdRetry(env *locklog.Etcd, k int, p plan) (res result) {
 	for a := 1; ; a++ {
 		res = runEtcd(env, fmt.Sprintf("k%d-%d", k, a), p)
 		res.attempts = a
-		if a == 3 || (res.infra == "" && res.hbMs < stallMs) {
+		if a == 4 || (res.infra == "" && res.hbMs < stallMs) {
 			return res
 		}
 	}
@@ -244,8 +245,14 @@ func stream(t *testing.T, bk string, exec func(k int, p plan) result) {
 	results := make([]result, len(plans))
 	locklog.Pool(len(plans), 6, func(k int) { results[k] = exec(k, plans[k]) })
 
+	dropped := 0
 	for k, p := range plans {
 		res := results[k]
+		if bk == "etcd" && res.infra == "" && res.hbMs >= stallMs {
+			r.Count("runs_dropped_etcd_stalled")
+			dropped++
+			continue
+		}
 		ttl := make([]int64, p.N)
 		tmo := make([]int64, p.N)
 		for i := range ttl {
@@ -272,9 +279,6 @@ func stream(t *testing.T, bk string, exec func(k int, p plan) result) {
 			if res.attempts > 1 {
 				r.Count(fmt.Sprintf("runs_repeated_after_etcd_stall=%d", res.attempts-1))
 			}
-			if res.hbMs >= stallMs {
-				r.Count("runs_emitted_although_etcd_stalled")
-			}
 		}
 		if len(res.notes) > 0 {
 			desc["notes"] = res.notes
@@ -293,6 +297,9 @@ func stream(t *testing.T, bk string, exec func(k int, p plan) result) {
 			}
 		}
 		r.Add(term, desc, map[string]any{"backend": bk, "fault": fault}, p.Lose)
+	}
+	if dropped*2 > len(plans) {
+		t.Fatalf("more than half of the etcd runs were dropped because the embedded cluster stalled (%d of %d)", dropped, len(plans))
 	}
 	r.Finish("scripted scenario on the real " + bk + " backend (real store.CreateLock, one lock object per contender):" +
 		" contender 0 holds, contender 1 waits in Lock, optionally (n=3) contender 2 try-locks; after 30..100 ms in ~70% of" +
